@@ -21,7 +21,7 @@ CONSTANTS Family, MaxLen
 VARIABLE s
 
 WordChars == {48, 49, 57, 97, 101, 69, 120, 102, 46, 95}                 \* 0 1 9 a e E x f . _
-BodyChars == {97, QUOTE, BSL, 47, 42, NL, 32, 43, 228, 128512}            \* a " \ / * newline space + a-umlaut emoji
+BodyChars == {97, QUOTE, BSL, 47, 42, NL, 13, 32, 43, 228, 128512}        \* a " \ / * newline CR space + a-umlaut emoji
 RawChars == {97, 38, 124, QUOTE, BSL, 32, 49, 43, 47, 42}                  \* a & | " \ space 1 + / *  : raw source text
 Alphabet == CASE Family = "words" -> WordChars [] Family = "raw" -> RawChars [] OTHER -> BodyChars
 \* words the small alphabet cannot spell: the RustFloatWord deviation, the i64 boundary, letter case, extreme exponents
